@@ -3,7 +3,8 @@
    in == [vs |-> Seq([shape |-> "unit"|"tuple"|"named", it |-> VItem, fs |-> Seq(FItem)]), dflt |-> BOOLEAN,
           eg |-> Nat]        \* enum-level #[ghosts(X<j>: {..})] entries: counterpart-only variants converted to a given value by From *)
 EXTENDS O2OSyntax, TLC
-VItems == {"none", "ren", "ghostd", "ghost", "hint_tuple", "hint_struct", "hint_unit"}
+VItems == {"none", "ren", "ghostd", "ghost", "hint_tuple", "hint_struct", "hint_unit", "hint_tuple_ded"}
+\* hint_tuple_ded: a default #[type_hint(as Unit)] written first + #[type_hint(T| as ())] dedicated to each counterpart (the dedicated one counts)
 FItems == {"none", "ren", "expr", "ghostd"}
 N2S(i) == ToString(i)
 
@@ -11,7 +12,7 @@ VName(i) == "V" \o N2S(i)
 CVName(in, i) == IF in.vs[i].it = "ren" THEN "RV" \o N2S(i) ELSE VName(i)
 IsGhostV(v) == v.it \in {"ghostd", "ghost"}
 \* payload form on the counterpart side
-CForm(v) == CASE v.it = "hint_tuple" -> "tuple" [] v.it = "hint_struct" -> "named" [] v.it = "hint_unit" -> "unit" [] OTHER -> v.shape
+CForm(v) == CASE v.it \in {"hint_tuple", "hint_tuple_ded"} -> "tuple" [] v.it = "hint_struct" -> "named" [] v.it = "hint_unit" -> "unit" [] OTHER -> v.shape
 
 OwnF(v, j) == IF v.shape = "named" THEN "x" \o N2S(j) ELSE N2S(j - 1)
 Mapped(v) == {j \in DOMAIN v.fs : v.fs[j] # "ghostd"}
